@@ -17,6 +17,17 @@ CLAIMS = {
    technique="contract-based deductive verification: VCs generated from the real function AST (pyvc), discharged by z3/cvc5; "
              "bounded native contract checking as labelled stand-in and replay",
    design_ref="DESIGN.md section 7 (C04)"),
+ "C20": dict(
+   text="Deductive proof, for every list of config-id strings and every server state, that each path the real _get_rails hands to "
+        "RailsConfig.from_path (ghost trace) is the configured root or lies lexically inside it with no '..' component - on normal "
+        "and on every exceptional exit; string lemmas split between z3 (regex) and cvc5 (containment). Thread-history clauses of "
+        "chat_completion are covered by the bounded stand-in only.",
+   note="Assumed (listed in evidence): os.path.abspath yields a normalised absolute path; posixpath.join/normpath/commonprefix axioms "
+        "(A-JOIN, A-NORMPATH, A-COMMONPREFIX) for a single component; from_path / LLMRails do not modify the server globals; root != '/'. "
+        "Symlinks are outside a lexical contract. Trusted: pyvc encoder, regex-to-SMT compiler (re._parser based), z3/cvc5.",
+   technique="contract-based deductive verification (pyvc VCs from the real AST + ghost trace + hand-instantiated string lemmas; z3/cvc5); "
+             "bounded native contract checking as labelled stand-in and replay",
+   design_ref="DESIGN.md section 7 (C20)"),
 }
 NA_DEFAULT = "check not built yet (build in progress; see DESIGN.md section 7 for the plan)"
 NA = {}
